@@ -324,6 +324,12 @@ impl rustc_driver::Callbacks for Cb {
                 for (si, st) in data.statements.iter().enumerate() {
                     if let StatementKind::Assign(b) = &st.kind {
                         let (place, rv) = &**b;
+                        if let Rvalue::Cast(kind, _, _) = rv {
+                            if matches!(kind, mir::CastKind::PointerExposeProvenance) {
+                                let (_, sl, _) = span_info(tcx, st.source_info.span);
+                                stm.push(format!("{{\"i\":{},\"c\":\"ptr2int\",\"line\":{}}}", si, sl));
+                            }
+                        }
                         if let Some(f) = place_self_field(tcx, body, place) {
                             let src = match rv {
                                 Rvalue::Use(op, ..) => {
